@@ -887,9 +887,19 @@ impl<'a> MetaStoreUpdate<'a> {
                 if chunk.role_position == ChunkRolePosition::SecondChunkMaster {
                     return Ok(());
                 }
+                // If the second half has been taken over before,
+                // the masters of both halves are moved this time.
+                let both_moved = chunk.role_position == ChunkRolePosition::FirstChunkMaster;
                 chunk.role_position = ChunkRolePosition::SecondChunkMaster;
 
-                for migrating_slot_range in chunk.migrating_slots[0].iter_mut() {
+                let moved_parts = if both_moved { 0..2 } else { 0..1 };
+                for migrating_slot_range in chunk
+                    .migrating_slots
+                    .get_mut(moved_parts)
+                    .expect("takeover_master: moved parts")
+                    .iter_mut()
+                    .flat_map(|slots| slots.iter_mut())
+                {
                     migrating_slot_range.meta.epoch = new_epoch;
                     peer_position.insert((
                         migrating_slot_range.meta.src_chunk_index,
@@ -905,9 +915,19 @@ impl<'a> MetaStoreUpdate<'a> {
                 if chunk.role_position == ChunkRolePosition::FirstChunkMaster {
                     return Ok(());
                 }
+                // If the first half has been taken over before,
+                // the masters of both halves are moved this time.
+                let both_moved = chunk.role_position == ChunkRolePosition::SecondChunkMaster;
                 chunk.role_position = ChunkRolePosition::FirstChunkMaster;
 
-                for migrating_slot_range in chunk.migrating_slots[1].iter_mut() {
+                let moved_parts = if both_moved { 0..2 } else { 1..2 };
+                for migrating_slot_range in chunk
+                    .migrating_slots
+                    .get_mut(moved_parts)
+                    .expect("takeover_master: moved parts")
+                    .iter_mut()
+                    .flat_map(|slots| slots.iter_mut())
+                {
                     migrating_slot_range.meta.epoch = new_epoch;
                     peer_position.insert((
                         migrating_slot_range.meta.src_chunk_index,
